@@ -764,18 +764,18 @@ def exotic():
         mk_event(('f11', g, ip, {'i2/x.lark': IMP['x'], 'i1/keep': ''}, ['x', 'y'])),
         mk_event(('f11', g, ip, {'i2/x.lark': IMP['x'], 'i1/x.lark': IMP['y']}, ['x', 'y']))]}
     ga = 'start: A\nA: "a"\n'
-    E['F15:cache-unhashable-option-not-in-key'] = {'f0': None, 'events': [
+    E['F16:cache-unhashable-option-not-in-key'] = {'f0': None, 'events': [
         mk_event(('f15', ga, [['edit_terminals', {'edit': 'z'}]], {}, ['a', 'z'])),
         mk_event(('f15', ga, [], {}, ['a', 'z']))]}
     gp = 'start: A\nA: "a"\nNL: "\\n"\n'
-    E['F15:cache-unhashable-option-not-in-key/postlex'] = {'f0': None, 'events': [
+    E['F16:cache-unhashable-option-not-in-key/postlex'] = {'f0': None, 'events': [
         mk_event(('f15b', gp, [['lexer', 'basic'], ['postlex', {'postlex': 'nl'}]], {}, ['a', 'a\n'])),
         mk_event(('f15b', gp, [['lexer', 'basic']], {}, ['a', 'a\n']))]}
     top = '%import .x.X\nstart: X\n'
-    E['F16:cache-source-path-not-in-key'] = {'f0': None, 'events': [
+    E['F17:cache-source-path-not-in-key'] = {'f0': None, 'events': [
         dict(mk_event(('f16', '', [], {'d1/g.lark': top, 'd1/x.lark': IMP['x'], 'd2/g.lark': top, 'd2/x.lark': IMP['y']}, ['x', 'y'])), open='d1/g.lark'),
         dict(mk_event(('f16', '', [], {}, ['x', 'y'])), open='d2/g.lark')]}
-    E['F17:cache-deleted-import-served'] = {'f0': None, 'events': [
+    E['F33:cache-deleted-import-served'] = {'f0': None, 'events': [
         mk_event(('f17', g, [['import_paths', {'paths': ['i2']}]], {'i2/x.lark': IMP['x']}, ['x'])),
         mk_event(('f17', g, [['import_paths', {'paths': ['i2']}]], {'i2/x.lark': None}, ['x']))]}
     return E
